@@ -387,3 +387,69 @@ def nodisp_not_bp(chk, emit, unit):
                detail="`%s` selects the form without displacement without excluding BP/R13 as base: [rbp] is then encoded as mod = 00, base = 101, "
                       "which the CPU reads as [disp32] and consumes the next four bytes" % " ".join(emit.text(top).split())[:70], key="nodispbp|%d" % n)
     chk.floor(R + ":tests", n, 3)
+
+
+def index_scale_seen(chk, emit, unit):
+    """every path of the ModRM/SIB emission that knows the operand has an index register looks at its scale"""
+    from .relational import Relational
+    R = "R-INDEX-SCALE-LOOKED-AT"
+    chk.rule(R, "x86 _emit: on every path of the ModRM/SIB emission on which the memory operand is known to have an index register "
+                "(`rm_info & kX86MemInfo_Index` taken, or `(rm_info & kBaseGpIdx) == kBaseGpIdx`) the operand's shift() has been read "
+                "(encoded as the SIB scale, or tested to be zero where the addressing form has none) before the immediate that closes the "
+                "instruction is written: an index scale is never silently dropped")
+
+    def has_index_const(e):
+        x = emit.e(emit.strip(e))
+        if x is None:
+            return False
+        if x.get("cvn") == "kX86MemInfo_Index":
+            return True
+        if x["k"] == "ref" and x.get("name") == "kBaseGpIdx":
+            return True
+        return False
+
+    def idx_test(x):
+        """`rm_info & <constant that includes the index bit only together with ...>`: the taken edge proves an index"""
+        if x is None:
+            return None
+        if x["k"] == "binop" and x["op"] == "&":
+            a, b = emit.e(emit.strip(x["lhs"])), x["rhs"]
+            if a is not None and a.get("name") == "rm_info" and (emit.e(emit.strip(b)) or {}).get("cvn") == "kX86MemInfo_Index":
+                return "true"
+        if x["k"] == "binop" and x["op"] == "==":
+            for u, v in ((x["lhs"], x["rhs"]), (x["rhs"], x["lhs"])):
+                ux = emit.e(emit.strip(u))
+                if ux is not None and ux["k"] == "binop" and ux["op"] == "&" and (emit.e(emit.strip(ux["lhs"])) or {}).get("name") == "rm_info" \
+                   and has_index_const(ux["rhs"]) and has_index_const(v):
+                    return "true"
+        return None
+
+    def elem_fx(eid, x, facts):
+        if x["k"] == "mcall" and x.get("cn") == "shift" and "Mem" in (x.get("callee") or ""):
+            return ([("shift",)], [])
+        if x["k"] == "binop" and x["op"] == "=":
+            l = emit.e(emit.strip(x["lhs"]))
+            if l is not None and l.get("name") == "rm_info":
+                return ([], [f for f in facts if f in (("shift",), ("idx",))])
+        return None
+
+    def edge_fx(b, si, atom, holds, facts):
+        if holds and idx_test(emit.e(atom)) == "true":
+            return [("idx",)]
+        return ()
+    rel = Relational(emit, elem_fx, edge_fx)
+    n = ntests = 0
+    for i, x in sorted(emit.ex.items()):
+        if idx_test(x):
+            ntests += 1
+    for i, x in emit.calls(lambda x: x.get("cn") == "emit_immediate"):
+        states = rel.before(i)
+        if states is None:
+            continue
+        n += 1
+        bad = any(("idx",) in facts and ("shift",) not in facts for facts, flags in states)
+        chk.ob(R, "x86::_emit|emit_immediate@%d" % n, not bad, loc=emit.loc(i),
+               detail="a path reaches this end of the ModRM/SIB emission knowing that the memory operand has an index register without ever "
+                      "having read its shift(): `[index*scale + disp]` is encoded as `[index + disp]`", key="indexscale|%d" % n)
+    chk.floor(R + ":index-tests", ntests, 3)
+    chk.floor(R + ":ends", n, 2)
